@@ -42,6 +42,9 @@ func checkC01(p *Program, r *Result) {
 	checkTrailerDrain(p, r, "C01.t")
 	r.rule("C01.r", "the chunk buffer read at flush is the buffer the compressor writes into", 1)
 	checkChunkBufferIdentity(p, r, "C01.r")
+	// what the reader decodes and validates a chunk with is what the writer put into the chunk header
+	r.rule("C01.h", "chunk header size/CRC/times are those of this chunk: captured before reset, accumulators start fresh (C05.d)", 9)
+	importRule(p, r, "C01.h", func(sub *Result) { checkFlush(p, sub) }, nil)
 }
 
 // checkDecoderLimits: the chunk decoders must accept everything the writer's own encoders can emit at any level;
